@@ -444,7 +444,7 @@ func TestC16Tier(t *testing.T) {
 	rep.Extra["releases_with_two_or_more_calls_in_flight"] = concurrentMerges
 	rep.Extra["bounds"] = fmt.Sprintf("n<=%d, in flight<=%d", maxN, maxInflight)
 	if concurrentMerges == 0 || trans < 50 {
-		core.HarnessError("vacuous tier run: transitions=%d concurrent releases=%d", trans, concurrentMerges)
+		rep.Vacuous("vacuous tier run: transitions=%d concurrent releases=%d", trans, concurrentMerges)
 	}
 	rep.Finish()
 }
